@@ -129,7 +129,7 @@ CLAIMED = {
   "equality for all key pairs; each modifier's check holds iff the account has the described flag / key / owner; a "
   "nesting accepts iff every layer accepts and reports the innermost failing layer's error; optional accounts absent / "
   "placeholder / present. Tie: 31 Rust nestings (depth <= 4, plain and Option) x all flags x every one-bit and one-byte "
-  "key and owner perturbation, exhaustively (88k cases incl. the same decisions on accounts with other balances / data), against the extracted model. Containers forward the checks to EVERY element: Vec<T> with its four validate-argument forms accepts iff the form fits the number of accounts and every account passes every layer (C09_vec_accepts_iff_every_account, C09_vec_no_account_skipped); second stage: 10 element types x 0..5 accounts with one bad account at every position x forms x argument counts (2.3k cases).",
+  "key and owner perturbation, exhaustively (88k cases incl. the same decisions on accounts with other balances / data), against the extracted model. Containers forward the checks to EVERY element: Vec<T> with its four validate-argument forms accepts iff the form fits the number of accounts and every account passes every layer (C09_vec_accepts_iff_every_account, C09_vec_no_account_skipped); second stage: 10 element types x 0..5 accounts with one bad account at every position x forms x argument counts (3.2k cases). Derived sets with SEVERAL fields: every field's account is checked against THAT field's stack of checks, fields in declaration order, the first error is returned (C09_set_accepts_iff_every_field, C09_set_first_error, C09_set_check_stays_with_its_field); third stage: ten multi-field derived sets (pinned address on the 2nd / 3rd / 4th field, derive- and validate-skipped fields in front of it, named validate id, nested set) x one wrong field / crossed keys / every permutation of the accounts (0.9k cases).",
   "Honest level: proof for the comparison lemma, the per-layer iff and the composition rule over the layer algebra; that "
   "each Rust modifier IS the layer the model says is established by exhaustive correspondence over the finite "
   "perturbation domain on the 31-type family (the inductive universe of nestings is represented by that family)."),
